@@ -286,7 +286,7 @@ def _first_evaluated(expr, target):
         if n is target:
             order.append('T')
             return
-        if isinstance(n, (ast.Name, ast.Constant)):
+        if isinstance(n, (ast.Name, ast.Constant, ast.operator, ast.unaryop, ast.cmpop, ast.boolop, ast.expr_context)):
             return
         if isinstance(n, ast.JoinedStr):
             for v in n.values:
@@ -352,19 +352,21 @@ class _Rename(ast.NodeTransformer):
 
 
 class Normaliser(object):
-    def __init__(self, trees, pinned):
-        """trees: {module_name: ast.Module}"""
+    def __init__(self, trees, pinned, inline_only=False):
+        """trees: {module_name: ast.Module}; inline_only: no canonical forms, no outlining (used to *generate* inline-method variants)"""
         self.trees = trees
         self.pinned = pinned
+        self.inline_only = inline_only
         self.counter = 0
         self.inlined = []      # (helper name, caller, form)
         self.skipped = []      # (helper name, caller, reason)
         self.helpers = {}
-        self._fstrings_to_format()
-        self._inline_new_constants()
-        self._fold_delegates()
-        self._tail_loop_returns()
-        self._acquire_release_to_with()
+        if not inline_only:
+            self._fstrings_to_format()
+            self._inline_new_constants()
+            self._fold_delegates()
+            self._tail_loop_returns()
+            self._acquire_release_to_with()
         self._collect()
 
     def _tail_loop_returns(self):
@@ -977,6 +979,8 @@ class Normaliser(object):
             self.inlined.append(('f-strings', '%d' % self.fstrings, 'to-format'))
 
     def run(self):
+        if self.inline_only:
+            self._defs_to_lambdas = self._ifs_to_conditional_expressions = self._outline = lambda: None
         self._defs_to_lambdas()
         if not self.helpers:
             self._ifs_to_conditional_expressions()
